@@ -1,6 +1,6 @@
 (** Tie T for C08: IO protocol of save_sampler_state, load plumbing and save cadence regenerated from core.py. *)
 From Coq Require Import List Bool Arith.
-From Tempest Require Import Model.Crash Proofs.Crash.
+From Tempest Require Import Model.Crash Proofs.Crash Model.RunBook.
 From Tempest Require Gen.Checkpoint.
 Import ListNotations.
 
@@ -19,3 +19,15 @@ Proof. repeat split. Qed.
 Lemma link_cadence iter t0 every :
   Gen.Checkpoint.saves_at iter t0 every = (Nat.eqb ((iter - t0) mod every) 0 && negb (Nat.eqb iter t0)).
 Proof. reflexivity. Qed.
+
+(** the bookkeeping machine Model/RunBook.v is the code's: same cadence test, one checkpoint test / reweight / train / resample / mutate /
+    commit per iteration in this order, the iteration counter advanced once per iteration, counters of a fresh run start at 0
+    (call accounting: Link/Dispatch.v; which iterations draw a fresh prior batch: Link/Schedule.v) *)
+Lemma link_runbook_cadence it t0 e : Gen.Checkpoint.saves_at it t0 e = RunBook.saves_at it t0 e.
+Proof. reflexivity. Qed.
+Lemma link_runbook_pipeline :
+  Gen.Checkpoint.iteration_is_checkpoint_reweight_train_resample_mutate_commit = true
+  /\ Gen.Checkpoint.iteration_counter_advanced_once_per_iteration_in_reweight = true
+  /\ Gen.Checkpoint.fresh_run_starts_counters_at_zero = true
+  /\ Gen.Checkpoint.resume_sets_t0_from_restored_iter = true.
+Proof. repeat split. Qed.
